@@ -41,6 +41,8 @@ class C12(Check):
             {"rounds": [[R(i, 1) for i in range(1, 20)]], "frames": [ok(*[1] * 15), ok(*[1] * 4)]},
             {"rounds": [[R(1, 5), R(2, 5)], [R(3, 5)]], "frames": [{"kind": "lost", "wkc": [1, 1]}, ok(1)]},
             {"rounds": [[R(1, 5), R(2, 5)], [R(3, 5)]], "frames": [{"kind": "dup", "wkc": [1, 0]}, {"kind": "delay", "wkc": [1]}]},
+            # a copy of the first response arrives while the frame of the next round is in flight
+            {"rounds": [[R(1, 4)], [R(2, 4)], [R(3, 6), R(4, 2)]], "frames": [{"kind": "dup_late", "wkc": [1, 1]}]},
         ]
 
     def gen_cases(self):
@@ -67,7 +69,7 @@ class C12(Check):
                 rounds.append(rnd)
             frames = []
             for _f in range(40):
-                kind = rng.choice(["ok"] * 7 + ["lost", "dup", "delay"]) if rng.random() > 0.03 else "short"
+                kind = rng.choice(["ok"] * 6 + ["lost", "dup", "delay", "dup_late", "dup_late"]) if rng.random() > 0.03 else "short"
                 frames.append({"kind": kind, "wkc": [rng.choice([1, 1, 1, 0, 2]) for _ in range(15)]})
             out.append({"rounds": rounds, "frames": frames})
         return out
@@ -89,6 +91,7 @@ class C12(Check):
             tasks, info = {}, {}
             frames_done = 0
             delayed = []
+            late = []
             frame_log = []       # per frame: ids, states at processing time, response or None
             round_log = []
 
@@ -109,6 +112,11 @@ class C12(Check):
                     frame = sent[frames_done]
                     pol = case["frames"][frames_done % len(case["frames"])]
                     frames_done += 1
+                    # late copies of EARLIER responses arrive while this frame is in flight: they belong to nobody any more
+                    while late:
+                        ec.datagram_received(late.pop(0), None)
+                        await asyncio.sleep(0)
+                        await asyncio.sleep(0)
                     length, dgs, _ = parse_frame(frame)
                     ids = [d["addr"] & 0xffff for d in dgs[1:]]
                     for i in ids:
@@ -126,6 +134,8 @@ class C12(Check):
                     ec.datagram_received(resp, None)
                     if pol["kind"] == "dup":
                         ec.datagram_received(resp, None)
+                    if pol["kind"] == "dup_late":
+                        late.append(resp)
                     frame_log.append((ids, states, resp))
                     await asyncio.sleep(0)
                     await asyncio.sleep(0)
@@ -306,8 +316,8 @@ class C12(Check):
 
     def rule(self):
         return ("1-3 rounds of 1-17 concurrent datagram requests (data 0-30 bytes, 30% of rounds 200-800 bytes so that frames overflow, 4% requests that can never "
-                "fit, 4% that just fit), 30% cancelled before packing or while in flight; per frame: working counters 0/1/2 per datagram, 10% lost, 10% duplicated, "
-                "10% delayed past later rounds, 3% truncated; non-trivial = at least two frames processed")
+                "fit, 4% that just fit), 30% cancelled before packing or while in flight; per frame: working counters 0/1/2 per datagram, 9% lost, 9% duplicated at once, 18% duplicated with the copy arriving while "
+                "a later frame is in flight, 9% delayed past later rounds, 3% truncated; non-trivial = at least two frames processed")
 
     def distribution(self, cases, observed):
         d = {"requests": 0, "frames": 0, "lost": 0, "cancelled": 0, "oversize": 0, "wkc0": 0, "stalled": 0}
